@@ -134,7 +134,7 @@ def cases():
 def run(ctx):
     if ctx.k == 0:
         selftest()
-    n = ctx.share(480 if ctx.quick else 10000)
+    n = ctx.share(1600 if ctx.quick else 16000)
     explore(ctx, cases(), body, n)
 
 
